@@ -211,7 +211,6 @@ def i_CDQ(i, fmap):
     fmap[rip] = fmap[rip] + i.length
     x = fmap(eax).signextend(64)
     fmap[rdx] = x[32:64].zeroextend(64)
-    fmap[rax] = x[0:32].zeroextend(64)
 
 
 def i_CQO(i, fmap):
